@@ -209,7 +209,7 @@ func vbDoClientW(i *IPC, nat, fp, offer, mode string, bar *vbBarrier) string {
 		}
 		switch resp.Error {
 		case "":
-			return "answer:" + resp.Answer
+			return "answer:" + vbEscAnswer(resp.Answer)
 		case messages.StrNoProxies:
 			return "noproxies"
 		case messages.StrTimedOut:
@@ -225,7 +225,7 @@ func vbDoClientW(i *IPC, nat, fp, offer, mode string, bar *vbBarrier) string {
 		SnowflakeHandler{i, clientOffers}.ServeHTTP(rw, r)
 		switch rec.Code {
 		case 200:
-			return "answer:" + rec.Body.String()
+			return "answer:" + vbEscAnswer(rec.Body.String())
 		case http.StatusServiceUnavailable:
 			return "noproxies"
 		case http.StatusGatewayTimeout:
@@ -306,7 +306,35 @@ func vbDoPoll(i *IPC, sid, nat, ptype string, clients int, ver string) (string, 
 	return "match:" + offer + ":" + cnat + ":" + relay, true
 }
 
+// Answers are opaque byte strings to the broker. In a scenario line an answer (and in the result line an answer a client
+// received) that contains a byte the line format cannot carry (white space, control bytes, ',', ':', '@', non-ASCII) or
+// that starts with '~' is written "~<hex>"; every other answer is written as it is. The form is canonical: equal
+// strings iff equal bytes.
+func vbEscAnswer(s string) string {
+	plain := !strings.HasPrefix(s, "~")
+	for k := 0; k < len(s) && plain; k++ {
+		c := s[k]
+		if c <= 0x20 || c >= 0x7f || c == ',' || c == ':' || c == '@' {
+			plain = false
+		}
+	}
+	if plain {
+		return s
+	}
+	return "~" + hex.EncodeToString([]byte(s))
+}
+
+func vbUnescAnswer(s string) string {
+	if strings.HasPrefix(s, "~") {
+		if b, err := hex.DecodeString(s[1:]); err == nil {
+			return string(b)
+		}
+	}
+	return s
+}
+
 func vbDoAnswer(i *IPC, sid, answer string) string {
+	answer = vbUnescAnswer(answer)
 	b, err := messages.EncodeAnswerRequest(answer, sid)
 	if err != nil {
 		return "err:encode"
